@@ -320,6 +320,9 @@ func runC12(c *Ctx) {
 	ruleSizeParam(c) // the advertised SIZE limit is the one MAIL enforces
 	ruleNoSharedMutableGlobals(c)
 
+	// after the TLS upgrade the fresh EHLO advertises AUTH again: it is honoured only if the plaintext authentication state was dropped
+	ruleTLSSuccessEffects(c)
+
 	R.Rule("R-cmd-gates-agree", "E8 sibling agreement", "the STARTTLS and AUTH handlers accept under the same predicates that advertise them", 2)
 	if g := c.A.Func("(*Conn).handleStartTLS"); g != nil {
 		for _, site := range s.Find(g, "reply:220") {
